@@ -179,17 +179,27 @@ func TestC08_Save(t *testing.T) {
 		defer os.RemoveAll(dir)
 		h, _ := proc.NewHome(dir)
 		var model []savedEntry
-		start := rapid.SampledFrom([]string{"missing", "empty", "populated", "populated", "symlinked"}).Draw(t, "start")
+		start := rapid.SampledFrom([]string{"missing", "empty", "populated", "populated", "symlinked", "symlinked-rel"}).Draw(t, "start")
 		switch start {
 		case "empty":
 			os.MkdirAll(filepath.Dir(h.Notebook()), 0o755)
 			os.WriteFile(h.Notebook(), nil, 0o644)
-		case "populated", "symlinked":
+		case "populated", "symlinked", "symlinked-rel":
 			os.MkdirAll(filepath.Dir(h.Notebook()), 0o755)
 			// a hand-edited / imported notebook: entries may carry every field, incl. tags and a category
 			pre := []database.Command{{Command: "old one", Description: "kept", Keywords: []string{"k"}, Tags: []string{"backup", "sync"}, Niche: "files"}, {Command: "old two", Description: "also kept", Platform: []string{"linux"}, Pipeline: true, Tags: []string{"x y"}}}
 			os.WriteFile(h.Notebook(), gen.EmitYAML(pre), 0o644)
 			model = []savedEntry{{Command: "old one", Description: "kept", Keywords: []string{"k"}, Tags: []string{"backup", "sync"}, Niche: "files"}, {Command: "old two", Description: "also kept", Platform: []string{"linux"}, Pipeline: true, Tags: []string{"x y"}}}
+			if start == "symlinked-rel" {
+				// the configured path is a RELATIVE symbolic link (a sibling file, as `ln -s` / stow make them);
+				// such a link names the same file whatever directory wtf is started from (here: the work directory)
+				nd := filepath.Dir(h.Notebook())
+				os.Rename(h.Notebook(), filepath.Join(nd, "notebook.real.yml"))
+				target := rapid.SampledFrom([]string{"notebook.real.yml", "./notebook.real.yml", "../cmd-finder/notebook.real.yml"}).Draw(t, "link-target")
+				if err := os.Symlink(target, h.Notebook()); err != nil {
+					t.Fatalf("harness: %v", err)
+				}
+			}
 			if start == "symlinked" {
 				// the notebook lives in a dotfiles checkout; the configured path is a symbolic link to it
 				real := filepath.Join(dir, "dotfiles", "personal.yml")
